@@ -274,12 +274,51 @@ pub fn trait_unary(which: u8) {
         37 => Inv::inv(x),
         _ => Inv::inv(&x),
     };
+    if native() {
+        assert!(same(r, inherent_unary(which, x)));
+        return;
+    }
     #[allow(static_mut_refs)]
     unsafe {
         assert!(T_U1.n == 1 && T_U1.key[0] == k2(x));
         assert!(same(r, r2(T_U1.res[0])));
     }
     reached();
+}
+
+/// the inherent function behind each `trait_unary` selector (used by the native replay)
+pub fn inherent_unary(which: u8, x: TwoFloat) -> TwoFloat {
+    match which {
+        0 => TwoFloat::exp(x),
+        1 => TwoFloat::exp2(x),
+        2 => TwoFloat::ln(x),
+        3 => TwoFloat::log2(x),
+        4 => TwoFloat::log10(x),
+        5 => TwoFloat::sqrt(x),
+        6 => TwoFloat::cbrt(x),
+        7 => TwoFloat::sin(x),
+        8 => TwoFloat::cos(x),
+        9 => TwoFloat::tan(x),
+        10 => TwoFloat::asin(x),
+        11 => TwoFloat::acos(x),
+        12 => TwoFloat::atan(x),
+        13 => TwoFloat::exp_m1(x),
+        14 => TwoFloat::ln_1p(x),
+        15 => TwoFloat::sinh(x),
+        16 => TwoFloat::cosh(x),
+        17 => TwoFloat::tanh(x),
+        18 => TwoFloat::asinh(x),
+        19 => TwoFloat::acosh(x),
+        20 => TwoFloat::atanh(x),
+        21 | 29 => TwoFloat::floor(x),
+        22 | 30 => TwoFloat::ceil(x),
+        23 | 31 => TwoFloat::round(x),
+        24 | 32 => TwoFloat::trunc(x),
+        25 | 33 => TwoFloat::fract(x),
+        27 | 35 => TwoFloat::to_degrees(x),
+        28 | 36 => TwoFloat::to_radians(x),
+        _ => TwoFloat::recip(x),
+    }
 }
 
 /// binary methods: atan2, hypot, log, powf, min, max; Pow<TwoFloat>/Pow<f64>; callee as UF b1
@@ -299,6 +338,18 @@ pub fn trait_binary(which: u8) {
         9 => (num_traits::float::FloatCore::max(x, y), y),
         _ => (Pow::pow(x, y.hi()), tf(y.hi(), 0.0)),
     };
+    if native() {
+        let want = match which {
+            0 => TwoFloat::atan2(x, ky),
+            1 => TwoFloat::hypot(x, ky),
+            2 => TwoFloat::log(x, ky),
+            4 | 8 => TwoFloat::min(x, ky),
+            5 | 9 => TwoFloat::max(x, ky),
+            _ => TwoFloat::powf(x, ky),
+        };
+        assert!(same(r, want));
+        return;
+    }
     #[allow(static_mut_refs)]
     unsafe {
         assert!(T_B1.n == 1 && T_B1.key[0] == k4(x, ky));
@@ -332,6 +383,10 @@ pub fn c10_powi_entry_points() {
         6 => (Pow::pow(x, n as u16), n as u16 as i32),
         _ => (Pow::pow(&x, &n), n),
     };
+    if native() {
+        assert!(same(r, TwoFloat::powi(x, want)));
+        return;
+    }
     #[allow(static_mut_refs)]
     unsafe {
         assert!(T_POWI.n == 1 && T_POWI.key[0] == [x.hi().to_bits(), x.lo().to_bits(), want as u32 as u64]);
@@ -425,6 +480,11 @@ pub fn uf_sin_cos(x: TwoFloat) -> (TwoFloat, TwoFloat) {
 pub fn c10_sin_cos_entry() {
     let x = any_tf();
     let (s, c) = Float::sin_cos(x);
+    if native() {
+        let (s2, c2) = TwoFloat::sin_cos(x);
+        assert!(same(s, s2) && same(c, c2));
+        return;
+    }
     #[allow(static_mut_refs)]
     unsafe {
         assert!(T_SINCOS.n == 1 && T_SINCOS.key[0] == k2(x));
